@@ -1066,7 +1066,7 @@ def relay_forward_while_third_busy(order=('A', 'B', 'C')):
     handlers = [['B', 'P', 'hB', [['sleep', 'd2'], ['ret', 'b']]], ['C', 'X', 'hC', [['sleep', 'd1'], ['ret', 'c']]],
                 ['A', 'X', 'hXA', [['ret', 'x']]], ['B', 'X', 'hXB', [['ret', 'x']]]]
     main = [['root', 'A', 'X', 'XA0'], ['idle', 'A'], ['root', 'B', 'X', 'XB0'], ['idle', 'B'], ['root', 'C', 'X', 'XC0'], ['idle', 'C'],
-            ['root', 'C', 'X', 'XC1'], ['sleep', 't1'], ['root', 'A', 'P', 'P1'], ['sleep', '1'], ['idle', 'B'], ['idle', 'C'], ['obs_all', 'end']]
+            ['root', 'C', 'X', 'XC1'], ['root', 'C', 'X', 'XC2'], ['sleep', 't1'], ['root', 'A', 'P', 'P1'], ['sleep', '2'], ['idle', 'B'], ['idle', 'C'], ['obs_all', 'end']]
     return dict(buses=['A', 'B', 'C'], order=list(order), reals={'d1': ['0', '2/5'], 'd2': ['1/10', '1/10'], 't1': ['0', '3/10']}, handlers=handlers,
                 typed_forwards_first=[['A', 'B', 'P']], main=main, horizon=8)
 
